@@ -235,6 +235,26 @@ func init() {
 				x.tb.Eq(ch, x.tb.BV(8, ':')), x.tb.Eq(ch, x.tb.BV(8, '.')))
 			nec = x.tb.And(nec, x.tb.Implies(x.tb.ULt(x.i64(i), arg.Len), okc))
 		}
+		// further necessary conditions of the real parser: dotted (IPv4) text has at least 7 bytes
+		// ("1.1.1.1"); text shorter than 7 bytes can only be IPv6 with a "::" in it; three colons
+		// in a row never parse
+		hasDot, hasDbl, hasTriple := x.tb.False, x.tb.False, x.tb.False
+		for i := 0; i < x.maxLen(arg); i++ {
+			in := x.tb.ULt(x.i64(i), arg.Len)
+			hasDot = x.tb.Or(hasDot, x.tb.And(in, x.tb.Eq(arg.B[i], x.tb.BV(8, '.'))))
+			if i+1 < x.maxLen(arg) {
+				in2 := x.tb.ULt(x.i64(i+1), arg.Len)
+				dbl := x.tb.And(in2, x.tb.And(x.tb.Eq(arg.B[i], x.tb.BV(8, ':')), x.tb.Eq(arg.B[i+1], x.tb.BV(8, ':'))))
+				hasDbl = x.tb.Or(hasDbl, dbl)
+				if i+2 < x.maxLen(arg) {
+					in3 := x.tb.ULt(x.i64(i+2), arg.Len)
+					hasTriple = x.tb.Or(hasTriple, x.tb.And(dbl, x.tb.And(in3, x.tb.Eq(arg.B[i+2], x.tb.BV(8, ':')))))
+				}
+			}
+		}
+		short := x.tb.ULt(arg.Len, x.tb.Int64(7))
+		nec = x.tb.And(nec, x.tb.Implies(short, x.tb.And(hasDbl, x.tb.Not(hasDot))))
+		nec = x.tb.And(nec, x.tb.Not(hasTriple))
 		b = x.tb.And(b, nec)
 		// non-nil result: a 16-byte slice of unconstrained content
 		arr := &ArrayVal{E: make([]Value, 16)}
